@@ -374,6 +374,14 @@ def _root_.Option.rs_unwrap_unchecked {ρ α} (o : Option α) : M ρ α := fun s
   match o with | some a => .next a s | none => .ub .oob
 def Chr.rs_len_utf8 {ρ} (c : Chr) : M ρ Nat := pure c.w
 
+/-- `[x; n]`, the scratch buffer handed to `encode_utf8` -/
+structure ArrayBuf where
+  n : Nat
+def array_repeat {ρ} (_x n : Nat) : M ρ ArrayBuf := pure ⟨n⟩
+/-- `ch.encode_utf8(&mut buf)`: the bytes of the character, as a `&str` (the buffer must hold them) -/
+def Chr.rs_encode_utf8 {ρ} (c : Chr) (buf : ArrayBuf) : M ρ Str := fun s =>
+  if c.b.length ≤ buf.n then .next ⟨c.b⟩ s else .ub .oob
+
 /-! ## Constants the source names -/
 
 def MAX_INLINE_SIZE : Nat := MAX_INLINE
